@@ -87,3 +87,9 @@ def run(rep, tier):
         table_crop(rep, "interval", k, "T1-T3-crop-interval")
     for k in ks:
         table_crop(rep, "point", k, "T2-T3-crop-point")
+
+    # the textgrid-level operation (shared with C12): same names, same order, each tier equal to the tier operation
+    from .c12 import lifting
+    rep.rule("L-lifting-crop", "Textgrid.crop on a generic textgrid (interval tier / point tier plus an empty tier): per-tier result equals the tier-level crop, shared span and validate() True for strict/truncated")
+    for shape in ([("interval", "I", 1), ("point", "E", 0)], [("interval", "E", 0), ("point", "P", 1)]):
+        lifting(rep, shape, only="crop")
